@@ -20,13 +20,25 @@ def sh(cmd, cwd=None, env=None, timeout=3600):
 
 
 def main(a):
-    src, k, prop = a[0], a[1], a[2]
-    checks = a[3:] or [prop]
-    out = os.path.join(src, '_out')
-    diff = os.path.join(out, 'm%s.diff' % k)
-    demo = os.path.join(out, 'm%s_demo.py' % k)
-    note = os.path.join(out, 'm%s.txt' % k)
-    sid = '%s-m%s' % (prop, k)
+    if a[0] == '--recheck':
+        # re-run checks against a change already stored under seeded/<id>/
+        sid = a[1]
+        d0 = os.path.join(VERIF, 'seeded', sid)
+        old = json.load(open(os.path.join(d0, 'meta.json')))
+        prop = old['property']
+        checks = a[2:] or [prop]
+        diff, demo, note = os.path.join(d0, 'patch.diff'), os.path.join(d0, 'demo.py'), os.path.join(d0, 'what.txt')
+        if not os.path.exists(note):
+            with open(note, 'w') as f:
+                f.write(old.get('what', ''))
+    else:
+        src, k, prop = a[0], a[1], a[2]
+        checks = a[3:] or [prop]
+        out = os.path.join(src, '_out')
+        diff = os.path.join(out, 'm%s.diff' % k)
+        demo = os.path.join(out, 'm%s_demo.py' % k)
+        note = os.path.join(out, 'm%s.txt' % k)
+        sid = '%s-%sm%s' % (prop, 'w2' if '/sb-' in src else '', k)
     wt = '/tmp/vp-seed-%s' % sid
     sh('git -C /repo worktree remove --force %s' % wt)
     rc, o = sh('git -C /repo worktree add -q %s HEAD' % wt)
@@ -73,8 +85,9 @@ def main(a):
         meta['needs_to_manifest'] = meta['what']
         d = os.path.join(VERIF, 'seeded', sid)
         os.makedirs(d, exist_ok=True)
-        shutil.copy(diff, os.path.join(d, 'patch.diff'))
-        shutil.copy(demo, os.path.join(d, 'demo.py'))
+        if os.path.abspath(diff) != os.path.abspath(os.path.join(d, 'patch.diff')):
+            shutil.copy(diff, os.path.join(d, 'patch.diff'))
+            shutil.copy(demo, os.path.join(d, 'demo.py'))
         # merge with existing meta (keep earlier detection records)
         mp = os.path.join(d, 'meta.json')
         if os.path.exists(mp):
